@@ -33,10 +33,16 @@ var colRe = regexp.MustCompile(`IdentifierExpression\.Col\((.*?),const:"(\w+)"\)
 func sqlCol(p string) (owner, col string) {
 	// innermost Col(...)
 	i := strings.LastIndex(p, "Expression.Col(")
+	skip := len("Expression.Col(")
+	if i < 0 {
+		// through a narrow interface of the module (`type eventsTable interface{ Col(any) exp.IdentifierExpression }`)
+		i = strings.LastIndex(p, ".Col(")
+		skip = len(".Col(")
+	}
 	if i < 0 {
 		return "", ""
 	}
-	rest := p[i+len("Expression.Col("):]
+	rest := p[i+skip:]
 	j := strings.LastIndex(rest, `,const:"`)
 	if j < 0 {
 		return "", ""
@@ -133,7 +139,44 @@ func runSQLTomb(c *core.Ctx) {
 		}
 	}
 	if len(want) != 4 {
-		problems = append(problems, fmt.Sprintf("call site passes columns %v, want event_key, id and pubkey of the sub-select's event alias", role))
+		// the helper may be handed the events table (alias) itself and take the three columns off
+		// it: each equality is then read in the builder's terms — tombstone column = the like-named
+		// column of one and the same alias
+		problems = nil
+		owners := map[string]bool{}
+		n := 0
+		for _, ci := range calls(helper) {
+			com := ci.Common()
+			if !com.IsInvoke() || com.Method.Name() != "Eq" || len(com.Args) != 1 {
+				continue
+			}
+			lo, lcol := sqlCol(an.PathOf(com.Value))
+			ro, rcol := sqlCol(an.PathOfIn(com.Args[0], &call.Call))
+			if !strings.HasPrefix(lo, "deleted_event_") {
+				continue
+			}
+			n++
+			owners[ro] = true
+			if rcol != lcol || ro == "" || strings.HasPrefix(ro, "deleted_event_") {
+				problems = append(problems, fmt.Sprintf("%s.%s = %s.%s", lo, lcol, ro, rcol))
+			}
+			alias = ro
+		}
+		got := map[string]bool{}
+		for k := range eqs {
+			got[k] = true
+		}
+		for _, k := range []string{"deleted_event_keys.event_key", "deleted_event_keys.pubkey", "deleted_event_ids.id", "deleted_event_ids.pubkey"} {
+			if !got[k] {
+				problems = append(problems, "no equality on "+k)
+			}
+		}
+		if len(owners) != 1 {
+			problems = append(problems, fmt.Sprintf("the tombstone columns are compared with columns of %d different tables", len(owners)))
+		}
+		if n != 4 {
+			problems = append(problems, fmt.Sprintf("%d equalities on tombstone columns, want 4", n))
+		}
 	}
 	c.Check(len(problems) == 0, nil, fname(c, helper), "tombstone-equalities", P.Pos(helper.Pos()),
 		"not exists(deleted_event_keys: event_key = e.event_key ∧ pubkey = e.pubkey) ∧ not exists(deleted_event_ids: id = e.id ∧ pubkey = e.pubkey)",
